@@ -169,7 +169,7 @@ func c20Source(ns []qnode) *hist.Source {
 
 func init() {
 	Registry["C20"] = func(c *Ctx) {
-		c.R.Rule = "every workspace of a family (4 targets in two packages, every subset of the 6 possible lower->higher dependency edges = all DAG shapes incl. diamonds, plus variants in which one edge goes through an alias; one target is a test target) is materialised on disk and queried with the REAL binary: grog deps / deps -t / rdeps / rdeps -t for every node, --target-type=test|no_test, grog owners for every input file (incl. a file shared by two targets, glob-resolved files, a same-named file in another package and an unowned file), grog list for 8 pattern forms. Printed label sets must equal reference reachability sets, each label printed once, deps* and rdeps* must be mutual inverses. Second part: every single-file edit of the C01 model workspace followed by a build started in each directory of the workspace in turn: executed targets ⊆ owners(f) ∪ rdeps*(owners(f)) as printed by the binary itself. Non-trivial = a query whose expected answer is non-empty. Variants in which every target declares its first dependency twice (second time spelled relatively): still each label once. One target name exists in two packages (a target may depend on both). A workspace in which an unrelated target has two outputs of very different size: editing another target's input must not re-execute it (3 rounds)."
+		c.R.Rule = "every workspace of a family (4 targets in two packages, every subset of the 6 possible lower->higher dependency edges = all DAG shapes incl. diamonds, plus variants in which one edge goes through an alias; one target is a test target) is materialised on disk and queried with the REAL binary: grog deps / deps -t / rdeps / rdeps -t for every node, --target-type=test|no_test, grog owners for every input file (incl. a file shared by two targets, glob-resolved files, a same-named file in another package and an unowned file), grog list for 8 pattern forms. Printed label sets must equal reference reachability sets, each label printed once, deps* and rdeps* must be mutual inverses. Second part: every single-file edit of the C01 model workspace followed by a build started in each directory of the workspace in turn: executed targets ⊆ owners(f) ∪ rdeps*(owners(f)) as printed by the binary itself. Non-trivial = a query whose expected answer is non-empty. Variants in which every target declares its first dependency twice (second time spelled relatively): still each label once. One target name exists in two packages (a target may depend on both). A workspace in which an unrelated target has two outputs of very different size: editing another target's input must not re-execute it (3 rounds). Nested package: a package below another package whose target's glob reaches into it: owners of a file there names both targets, and an edit re-executes only owners and their rdeps."
 		c.R.Assume("edit part: regular input files only; a file that is an input only through a symbolic link is not an input file by its own path and is left out (symlinked inputs are covered by C01)", "stdout lines starting with // are the answer of a query command", "with --target-type other than all only target labels are compared (alias nodes are not typed)")
 		grog, err := vc.BuildGrog("grog", nil)
 		if err != nil {
@@ -201,6 +201,7 @@ func init() {
 		c.R.Set("query_invocations", queries)
 		c20EditPart(c, grog, base)
 		c20SkewedOutputs(c, grog, base)
+		c20NestedPackage(c, grog, base)
 	}
 }
 
@@ -539,4 +540,63 @@ func braceExpand(p string) []string {
 		out = append(out, p[:i]+alt+p[j+1:])
 	}
 	return out
+}
+
+// c20NestedPackage: a package nested below another package whose target's glob reaches into the nested package's
+// directory. `grog owners` of a file there names the nested package's target AND the outer one, and after editing the
+// file everything the build executes is among the owners and their transitive rdeps as printed by the binary.
+func c20NestedPackage(c *Ctx, grog, base string) {
+	src := &hist.Source{Files: map[string]hist.File{"lib/top.txt": {Content: "top"}, "lib/plugin/data.txt": {Content: "d1"}, "lib/plain/more.txt": {Content: "m"}, "app/app.in": {Content: "a"}}}
+	src.Targets = append(src.Targets,
+		hist.Target{Pkg: "lib", Name: "bundle", Inputs: []string{"**/*.txt"}, Command: traceStart},
+		hist.Target{Pkg: "lib/plugin", Name: "plugin", Inputs: []string{"data.txt"}, Command: traceStart},
+		hist.Target{Pkg: "app", Name: "app", Inputs: []string{"app.in"}, Deps: []string{"//lib:bundle"}, Command: traceStart},
+		hist.Target{Pkg: "app", Name: "site", Deps: []string{"//lib/plugin:plugin"}, Command: traceStart})
+	box, err := hist.NewBox(base)
+	if err != nil {
+		c.R.BrokenCheck("%v", err)
+		return
+	}
+	defer box.Remove()
+	src.Materialize(box.WS(), nil)
+	want := map[string][]string{
+		"lib/plugin/data.txt": {"//lib/plugin:plugin", "//lib:bundle"},
+		"lib/plain/more.txt":  {"//lib:bundle"},
+		"lib/top.txt":         {"//lib:bundle"},
+		"app/app.in":          {"//app:app"},
+	}
+	for _, f := range vc.SortedKeys(want) {
+		r := box.Run(grog, hist.RunOpts{Args: []string{"owners", f}})
+		got := queryLines(r.Output)
+		sort.Strings(got)
+		if r.Exit != 0 || strings.Join(got, " ") != strings.Join(want[f], " ") {
+			c.R.Violate(vc.Violation{Sig: "C20:owners:nested-package", Detail: fmt.Sprintf("grog owners %s prints %v (exit %d), the targets whose resolved inputs contain it are %v (//lib:bundle declares **/*.txt, //lib/plugin is a package below //lib)", f, got, r.Exit, want[f]), Replay: map[string]any{"file": f, "workspace": "//lib:bundle inputs **/*.txt; //lib/plugin:plugin inputs data.txt; //app:app -> //lib:bundle; //app:site -> //lib/plugin:plugin"}})
+		}
+		c.R.AddCounts(1, 1, 1, 1)
+		c.R.Nontrivial("nested-owners|" + f)
+	}
+	if r := box.Run(grog, hist.RunOpts{Args: []string{"build", "//..."}}); r.Exit != 0 {
+		c.R.BrokenCheck("nested package workspace: build failed: %s", tail(r.Output, 300))
+		return
+	}
+	s2 := src.Clone()
+	s2.Files["lib/plugin/data.txt"] = hist.File{Content: "d2"}
+	s2.Materialize(box.WS(), src)
+	f := "lib/plugin/data.txt"
+	owners := queryLines(box.Run(grog, hist.RunOpts{Args: []string{"owners", f}}).Output)
+	allowed := setOf(owners)
+	for _, o := range owners {
+		for _, l := range queryLines(box.Run(grog, hist.RunOpts{Args: []string{"rdeps", "-t", o}}).Output) {
+			allowed[l] = true
+		}
+	}
+	r2 := box.Run(grog, hist.RunOpts{Args: []string{"build", "//..."}})
+	for _, e := range r2.Started() {
+		if !allowed[e] {
+			c.R.Violate(vc.Violation{Sig: "C20:edit-executes-target-outside-owners-and-rdeps", Detail: fmt.Sprintf("nested package: after editing %s the build executed %s, but owners(%s)=%v and their transitive rdeps are %v", f, e, f, owners, sortedKeys(allowed)), Replay: map[string]any{"file": f, "executed": r2.Started()}})
+		}
+	}
+	c.R.AddCounts(1, 1, 2, 1)
+	c.R.Outcome(fmt.Sprintf("nested-edit|%v", r2.Started()))
+	c.R.Nontrivial("nested-edit")
 }
